@@ -99,7 +99,8 @@ Inductive reply :=
 | ROk
 | RInt (n : nat)
 | RKeys (ks : list skey)
-| RTxFailed.            (* EXEC answered nil: go-redis' TxFailedErr *)
+| RTxFailed             (* EXEC answered nil: go-redis' TxFailedErr *)
+| RErr.                 (* an error reply (wrong number of arguments) *)
 
 Definition deadline (clk : Z) (ttl : option Z) : option Z := option_map (fun t => clk + t)%Z ttl.
 
@@ -121,6 +122,7 @@ Definition srv_cmd (clk : Z) (c : nat) (x : cmd) (s : srv) : srv * reply :=
       | None => (do_set clk k v ttl s, RBool true)
       end
   | GETC k => (s, RVal (option_map e_pl (s_find clk k s)))
+  | MGET [] => (s, RErr)      (* ERR wrong number of arguments for 'mget' command *)
   | MGET ks => (s, RVals (map (fun k => option_map e_pl (s_find clk k s)) ks))
   | SETC k v ttl => (do_set clk k v ttl s, ROk)
   | MSET kvs => (do_mset clk kvs s, ROk)
